@@ -47,9 +47,12 @@ CLAUSE → THEOREM TABLE (review R3; property text in properties.jsonl, id C09)
        Rows of combined weight exactly 0 get label 0 and weight 0 (`relabel`; label irrelevant: C07.zero_weight_label_
        irrelevant).  All labels equal ⇒ DummyClassifier: `trainAt`, covered by `trainAt_minimises`.  All weights 0 ⇒
        sklearn's DummyClassifier raises ValueError: finding F12, not modelled (the model trains the constant).
-       PARTIAL — BoundedGroupLoss (`is_classification_reduction = False`: `y_reduction = y`, weights not abs'ed) is NOT a
-       branch of `fitLoop`; its identity is `C07.loss_grid_identity`; the check feeds the model the BGL weights signed by
-       the label, so that `relabel` returns (y, w) (correspondence only).
+       BoundedGroupLoss (`is_classification_reduction = False`: `y_reduction = y`, weights not abs'ed) is NOT a branch
+       of `fitLoop` (PARTIAL there: the check feeds the model the BGL weights signed by the label, so that `relabel`
+       returns (y, w) — correspondence only); the clause itself is proved for that column of `GridSearch.fit` as modelled
+       by C07 (`Oracle.callGridLoss`, over Generated/OracleSrc.lean): `C09.bgl_grid_point_minimises_lambda_gamma`
+       (C09X.lean, from `C07.loss_grid_identity`): labels unchanged, weights `signed_weights(λ)`, a minimiser of the
+       weighted loss over H minimises `λ·γ` over H.
   (c) "records for each predictor the objective and constraint values that its predictions really have"
        FULL in the model: fit_spec (`out.objectives = out.preds.map objOf ∧ out.gammas = out.preds.map gamOf` with
        `out.preds` the trained labelings: the records are functions of the RECORDED predictor, position by position);
